@@ -194,11 +194,7 @@ func (e *EvalBinaryNode) EvalString(scope *Scope, executionState ExecutionState)
 func (e *EvalBinaryNode) EvalBool(scope *Scope, executionState ExecutionState) (bool, error) {
 	var result resultContainer
 	var err *ErrSide
-	if e.leftEvaluator.IsDynamic() || e.rightEvaluator.IsDynamic() {
-		result, err = e.evaluateDynamicNode(scope, executionState, e.leftEvaluator, e.rightEvaluator)
-	} else {
-		result, err = e.eval(scope, executionState)
-	}
+	result, err = e.eval(scope, executionState)
 	if err != nil {
 		return false, err.error
 	}
@@ -247,70 +243,33 @@ func (e *EvalBinaryNode) EvalInt(scope *Scope, executionState ExecutionState) (i
 }
 
 func (e *EvalBinaryNode) eval(scope *Scope, executionState ExecutionState) (resultContainer, *ErrSide) {
-	if e.evaluationFn == nil {
-		err := e.determineError(scope, executionState)
-		return boolFalseResultContainer, &ErrSide{error: err}
+	if e.leftEvaluator.IsDynamic() || e.rightEvaluator.IsDynamic() {
+		return e.evaluateDynamicNode(scope, executionState, e.leftEvaluator, e.rightEvaluator)
 	}
-
-	evaluationResult, err := e.evaluationFn(scope, executionState, e.leftEvaluator, e.rightEvaluator)
-
-	// This case can in dynamic nodes,
-	// for example: RefNode("value") > NumberNode("float64")
-	// in the first evaluation "value" is float64 so we will have float64 > float64 comparison fn
-	// after the first evaluation, let's assume that "value" is changed to int64 - we need to change
-	// the comparison fn
-	if err != nil {
-		if typeGuardErr, isTypeGuardError := err.error.(ErrTypeGuardFailed); isTypeGuardError {
-			// Fix the type info, thanks to the type guard info
-			if err.IsLeft {
-				e.leftType = typeGuardErr.ActualType
-			}
-
-			if err.IsRight {
-				e.rightType = typeGuardErr.ActualType
-			}
-
-			// redefine the evaluation fn
-			e.evaluationFn = e.lookupEvaluationFn()
-			if e.evaluationFn == nil {
-				return boolFalseResultContainer, err
-			}
-
-			// try again
-			return e.eval(scope, executionState)
-		}
-	}
-
-	return evaluationResult, err
+	// Both operands have a constant type: the function was found at compile time.
+	return e.evaluationFn(scope, executionState, e.leftEvaluator, e.rightEvaluator)
 }
 
-// evaluateDynamicNode fetches the value of the right and left node at evaluation time (aka "runtime")
-// and find the matching evaluation function for the givne types - this is where the "specialisation" happens.
+// evaluateDynamicNode fetches the types of the left and right node at evaluation time (aka "runtime")
+// and finds the matching evaluation function for the given types.
+// The types are derived before anything is evaluated, on every call: an operand is evaluated exactly once
+// (it can be stateful, like "count() * x") and nothing is remembered from the types of earlier points.
 func (e *EvalBinaryNode) evaluateDynamicNode(scope *Scope, executionState ExecutionState, left, right NodeEvaluator) (resultContainer, *ErrSide) {
-	var leftType ast.ValueType
-	var rightType ast.ValueType
-	var err error
-
-	// For getting the type we must pass new execution state, since the node can be stateful (like function call)
-	// and on the second in the specialiszation we might loose the correct state
-	// For example: "count() == 1"
-	//  1. we evaluate the left side and counter is 1 (upper ^ in this function)
-	//  2. we evaluate the second time in "EvalBool"
-
-	if leftType, err = left.Type(scope); err != nil {
+	leftType, err := left.Type(scope)
+	if err != nil {
 		return emptyResultContainer, &ErrSide{error: err, IsLeft: true}
 	}
-
-	if rightType, err = right.Type(scope); err != nil {
+	rightType, err := right.Type(scope)
+	if err != nil {
 		return emptyResultContainer, &ErrSide{error: err, IsRight: true}
 	}
-
 	e.leftType = leftType
 	e.rightType = rightType
-
-	e.evaluationFn = e.lookupEvaluationFn()
-
-	return e.eval(scope, executionState)
+	fn := e.lookupEvaluationFn()
+	if fn == nil {
+		return boolFalseResultContainer, &ErrSide{error: e.determineError(scope, executionState)}
+	}
+	return fn(scope, executionState, left, right)
 }
 
 // Return an understandable error which is most specific to the issue.
